@@ -1,4 +1,5 @@
 import SwcVerif.Model.Redirect
+import SwcVerif.Proofs.Redirect
 /-! # C07 — re-rooting and concatenation preserve structure and geometry
 
 Theorems about the models `Redir.redirect` / `Redir.catPre` (`Model/Redirect.lean`, tied to the code by the
@@ -14,6 +15,79 @@ def WF (pids : List Int) : Prop :=
   (∀ k (h : k < pids.length), 0 < k → 0 ≤ pids[k] ∧ pids[k] < pids.length) ∧
   (∀ k, k < pids.length → (rootPath pids pids.length (k : Int)).getLast? = some 0)
 
+/-! ### consequences of `WF` -/
+theorem WF.root {pids : List Int} (hw : WF pids) : pids[0]? = some (-1) := by
+  have := hw.1; rwa [List.head?_eq_getElem?] at this
+
+theorem WF.pos {pids : List Int} (hw : WF pids) : 0 < pids.length := by
+  have := hw.root
+  cases pids with
+  | nil => simp at this
+  | cons a l => simp
+
+theorem WF.par_root {pids : List Int} (hw : WF pids) : pids.getD (0 : Int).toNat (-1) = -1 := by
+  simp [List.getD_eq_getElem?_getD, hw.root]
+
+/-- a node other than 0 has a parent, which is a node -/
+theorem WF.par_valid {pids : List Int} (hw : WF pids) (v : Nat) (h0 : 0 < v) (hv : v < pids.length) :
+    ∃ p : Int, pids[v]? = some p ∧ 0 ≤ p ∧ p < pids.length := by
+  refine ⟨pids[v], ?_, hw.2.1 v hv h0⟩
+  simp [hv]
+
+theorem WF.par_valid' {pids : List Int} (hw : WF pids) (v : Int) (h0 : 0 < v) (hv : v < pids.length) :
+    0 ≤ pids.getD v.toNat (-1) ∧ pids.getD v.toNat (-1) < pids.length := by
+  obtain ⟨p, hp, h1, h2⟩ := hw.par_valid v.toNat (by omega) (by omega)
+  simp [List.getD_eq_getElem?_getD, hp, h1, h2]
+
+/-- the root path of a node other than the root is the node followed by the root path of its parent -/
+theorem WF.path_cons {pids : List Int} (hw : WF pids) (v : Int) (h0 : 0 < v) (hv : v < pids.length) :
+    rootPath pids pids.length v = v :: rootPath pids pids.length (pids.getD v.toNat (-1)) := by
+  have hlast := hw.2.2 v.toNat (by omega)
+  have hvv : ((v.toNat : Nat) : Int) = v := by omega
+  rw [hvv] at hlast
+  have hpv := hw.par_valid' v h0 hv
+  have hne : pids.getD v.toNat (-1) ≠ -1 := by omega
+  obtain ⟨m, hm⟩ : ∃ m, pids.length = m + 1 := ⟨pids.length - 1, by have := hw.pos; omega⟩
+  rw [hm] at hlast ⊢
+  rw [rp_succ, if_neg hne] at hlast
+  rw [getLast?_cons_of_ne_nil _ _ (rp_ne_nil _ _ _)] at hlast
+  rw [rp_stable pids 0 hw.par_root m _ hlast, rp_succ, if_neg hne]
+
+/-- along any walk the depth (length of the full root path) does not increase, so no node repeats -/
+theorem WF.walk {pids : List Int} (hw : WF pids) : ∀ (f : Nat) (v : Int), 0 ≤ v → v < pids.length →
+    (∀ w ∈ rootPath pids f v, 0 ≤ w ∧ w < pids.length ∧
+        (rootPath pids pids.length w).length ≤ (rootPath pids pids.length v).length) ∧
+    (rootPath pids f v).Nodup := by
+  intro f
+  induction f with
+  | zero =>
+    intro v h0 hv
+    simp [rp_zero, h0, hv]
+  | succ f ih =>
+    intro v h0 hv
+    rw [rp_succ]
+    by_cases hp : pids.getD v.toNat (-1) = -1
+    · rw [if_pos hp]; simp [h0, hv]
+    · rw [if_neg hp]
+      have hv0 : v ≠ 0 := by
+        intro h; subst h; exact hp hw.par_root
+      have hpos : 0 < v := by omega
+      have hpv := hw.par_valid' v hpos hv
+      have ihp := ih _ hpv.1 hpv.2
+      have hlen := congrArg List.length (hw.path_cons v hpos hv)
+      rw [List.length_cons] at hlen
+      constructor
+      · intro w hwm
+        rcases List.mem_cons.mp hwm with h | h
+        · subst h; exact ⟨h0, hv, Nat.le_refl _⟩
+        · have := ihp.1 w h
+          exact ⟨this.1, this.2.1, by omega⟩
+      · rw [List.nodup_cons]
+        refine ⟨?_, ihp.2⟩
+        intro hmem
+        have := (ihp.1 v hmem).2.2
+        omega
+
 /-- the root path of a node: starts at the node, ends at the root, each element is followed by its parent,
 and no node occurs twice -/
 theorem rootPath_spec (pids : List Int) (hw : WF pids) (k : Nat) (hk : k < pids.length) :
@@ -21,7 +95,14 @@ theorem rootPath_spec (pids : List Int) (hw : WF pids) (k : Nat) (hk : k < pids.
     path.head? = some (k : Int) ∧ path.getLast? = some 0 ∧ path.Nodup ∧
     (∀ v ∈ path, 0 ≤ v ∧ v < pids.length) ∧
     (∀ i (h : i + 1 < path.length), pids.getD (path[i]'(by omega)).toNat (-1) = path[i+1]) := by
-  sorry
+  intro path
+  have hwalk := hw.walk pids.length (k : Int) (by omega) (by omega)
+  refine ⟨rp_head _ _ _, hw.2.2 k hk, hwalk.2, ?_, ?_⟩
+  · intro v hv; have := hwalk.1 v hv; exact ⟨this.1, this.2.1⟩
+  · intro i h; exact rp_chain pids pids.length (k : Int) i h
+
+theorem redirect_pids_eq (pids types : List Int) (k : Int) :
+    (redirect pids types k).pids = reversePath (setAt pids k (-1)) (rootPath pids pids.length k) := rfl
 
 /-- **what re-rooting does to the parent pointers**: the new root loses its parent, every parent pointer
 on the root path is reversed, every node off the path keeps its parent -/
@@ -32,7 +113,126 @@ theorem redirect_pids (pids types : List Int) (hw : WF pids) (k : Nat) (hk : k <
     r.pids.getD k 0 = -1 ∧
     (∀ i (h : i + 1 < path.length), r.pids.getD (path[i+1]).toNat 0 = path[i]'(by omega)) ∧
     (∀ v, v < pids.length → (v : Int) ∉ path → r.pids.getD v 0 = pids.getD v 0) := by
-  sorry
+  intro path r
+  obtain ⟨hhead, hlast, hnd, hval, hchain⟩ := rootPath_spec pids hw k hk
+  have hr : r.pids = reversePath (setAt pids k (-1)) path := rfl
+  obtain ⟨tl, htl⟩ : ∃ tl, path = (k : Int) :: tl := by
+    cases hp : path with
+    | nil => exact absurd hp (rp_ne_nil _ _ _)
+    | cons a tl =>
+      change path.head? = _ at hhead
+      rw [hp] at hhead; simp at hhead; subst hhead; exact ⟨tl, rfl⟩
+  have hkmem : (k : Int) ∈ path := by rw [htl]; simp
+  refine ⟨?_, ?_, ?_, ?_⟩
+  · rw [hr, reversePath_length, setAt_length]
+  · rw [hr, List.getD_eq_getElem?_getD, reversePath_frame, setAt_getElem?_self _ _ _ hk]
+    · rfl
+    · have := hnd
+      change path.Nodup at this
+      rw [htl] at this ⊢
+      exact (List.nodup_cons.mp this).1
+  · intro i h
+    rw [hr, List.getD_eq_getElem?_getD, reversePath_rev path _ hnd (by
+      intro v hv; rw [setAt_length]; exact hval v hv) i h]
+    rfl
+  · intro v hv hnot
+    rw [hr, List.getD_eq_getElem?_getD, List.getD_eq_getElem?_getD, reversePath_frame, setAt_getElem?_ne]
+    · intro h; exact hnot (h ▸ hkmem)
+    · intro h; exact hnot (List.mem_of_mem_tail h)
+
+theorem nodup_getElem_inj {l : List Int} (h : l.Nodup) (i j : Nat) (hi : i < l.length) (hj : j < l.length) :
+    l[i] = l[j] ↔ i = j := by
+  constructor
+  · intro e
+    rw [List.Nodup, List.pairwise_iff_getElem] at h
+    rcases Nat.lt_trichotomy i j with hlt | heq | hgt
+    · exact absurd e (h i j hi hj hlt)
+    · exact heq
+    · exact absurd e.symm (h j i hj hi hgt)
+  · intro e; subst e; rfl
+
+/-- the edge set is kept, for any description of "reverse the pointers along a duplicate-free path" -/
+theorem edges_abstract (pids r path : List Int) (hnd : path.Nodup) (_hval : ∀ v ∈ path, 0 ≤ v)
+    (hE1 : ∀ i (h : i + 1 < path.length), pids.getD (path[i]).toNat 0 = path[i+1])
+    (hE1' : ∀ i (h : i < path.length), i + 1 = path.length → pids.getD (path[i]).toNat 0 = -1)
+    (hE2 : ∀ i (h : i + 1 < path.length), r.getD (path[i+1]).toNat 0 = path[i])
+    (hE2' : ∀ (h : 0 < path.length), r.getD (path[0]).toNat 0 = -1)
+    (hE3 : ∀ v : Nat, (v : Int) ∉ path → r.getD v 0 = pids.getD v 0)
+    (u v : Nat) (_huv : u ≠ v) :
+    (r.getD u 0 = (v : Int) ∨ r.getD v 0 = (u : Int)) ↔ (pids.getD u 0 = (v : Int) ∨ pids.getD v 0 = (u : Int)) := by
+  -- on-path / on-path
+  have A : ∀ (a b : Nat) (i j : Nat) (hi : i < path.length) (hj : j < path.length),
+      path[i] = (a : Int) → path[j] = (b : Int) → (r.getD a 0 = (b : Int) ↔ j + 1 = i) := by
+    intro a b i j hi hj ea eb
+    cases i with
+    | zero =>
+      have := hE2' hi
+      rw [ea] at this; simp only [Int.toNat_natCast] at this
+      rw [this]; constructor <;> intro h <;> omega
+    | succ i =>
+      have := hE2 i hi
+      rw [ea] at this; simp only [Int.toNat_natCast] at this
+      rw [this, ← eb, nodup_getElem_inj hnd]; omega
+  have B : ∀ (a b : Nat) (i j : Nat) (hi : i < path.length) (hj : j < path.length),
+      path[i] = (a : Int) → path[j] = (b : Int) → (pids.getD a 0 = (b : Int) ↔ i + 1 = j) := by
+    intro a b i j hi hj ea eb
+    by_cases h : i + 1 < path.length
+    · have := hE1 i h
+      rw [ea] at this; simp only [Int.toNat_natCast] at this
+      rw [this, ← eb, nodup_getElem_inj hnd]
+    · have := hE1' i hi (by omega)
+      rw [ea] at this; simp only [Int.toNat_natCast] at this
+      rw [this]; constructor <;> intro h <;> omega
+  -- an on-path node never points to an off-path node
+  have C : ∀ (a b : Nat), (a : Int) ∈ path → (b : Int) ∉ path → r.getD a 0 ≠ (b : Int) ∧ pids.getD a 0 ≠ (b : Int) := by
+    intro a b ha hb
+    obtain ⟨i, hi, ea⟩ := List.getElem_of_mem ha
+    constructor
+    · cases i with
+      | zero =>
+        have := hE2' hi
+        rw [ea] at this; simp only [Int.toNat_natCast] at this
+        rw [this]; omega
+      | succ i =>
+        have := hE2 i hi
+        rw [ea] at this; simp only [Int.toNat_natCast] at this
+        rw [this]; intro h; exact hb (h ▸ List.getElem_mem _)
+    · by_cases h : i + 1 < path.length
+      · have := hE1 i h
+        rw [ea] at this; simp only [Int.toNat_natCast] at this
+        rw [this]; intro h; exact hb (h ▸ List.getElem_mem _)
+      · have := hE1' i hi (by omega)
+        rw [ea] at this; simp only [Int.toNat_natCast] at this
+        rw [this]; omega
+  by_cases hu : (u : Int) ∈ path <;> by_cases hv : (v : Int) ∈ path
+  · obtain ⟨i, hi, eu⟩ := List.getElem_of_mem hu
+    obtain ⟨j, hj, ev⟩ := List.getElem_of_mem hv
+    rw [A u v i j hi hj eu ev, A v u j i hj hi ev eu, B u v i j hi hj eu ev, B v u j i hj hi ev eu]
+    omega
+  · have h1 := (C u v hu hv).1
+    have h2 := (C u v hu hv).2
+    rw [hE3 v hv]
+    constructor <;> rintro (h | h) <;>
+      first | exact absurd h h1 | exact absurd h h2 | exact Or.inr h | exact Or.inl h
+  · have h1 := (C v u hv hu).1
+    have h2 := (C v u hv hu).2
+    rw [hE3 u hu]
+    constructor <;> rintro (h | h) <;>
+      first | exact absurd h h1 | exact absurd h h2 | exact Or.inr h | exact Or.inl h
+  · rw [hE3 u hu, hE3 v hv]
+
+/-- the last element of the root path is node 0 -/
+theorem path_last (pids : List Int) (hw : WF pids) (k : Nat) (hk : k < pids.length) (i : Nat)
+    (hi : i < (rootPath pids pids.length (k : Int)).length) (h : i + 1 = (rootPath pids pids.length (k : Int)).length) :
+    (rootPath pids pids.length (k : Int))[i] = 0 := by
+  have := hw.2.2 k hk
+  rw [List.getLast?_eq_getElem?] at this
+  have e : (rootPath pids pids.length (k : Int)).length - 1 = i := by omega
+  rw [e, List.getElem?_eq_getElem hi] at this
+  exact Option.some.inj this
+
+theorem getD_default_irrel (l : List Int) (i : Nat) (h : i < l.length) (d d' : Int) : l.getD i d = l.getD i d' := by
+  simp [List.getD_eq_getElem?_getD, h]
 
 /-- **the set of undirected edges is kept**: two distinct nodes are joined after re-rooting exactly when
 they were joined before -/
@@ -40,24 +240,114 @@ theorem redirect_edges (pids types : List Int) (hw : WF pids) (k : Nat) (hk : k 
     (u v : Nat) (hu : u < pids.length) (hv : v < pids.length) (huv : u ≠ v) :
     let r := redirect pids types (k : Int)
     (r.pids.getD u 0 = (v : Int) ∨ r.pids.getD v 0 = (u : Int)) ↔ (pids.getD u 0 = (v : Int) ∨ pids.getD v 0 = (u : Int)) := by
-  sorry
+  intro r
+  obtain ⟨hhead, hlast, hnd, hval, hchain⟩ := rootPath_spec pids hw k hk
+  obtain ⟨hlen, hk1, hrev, hoff⟩ := redirect_pids pids types hw k hk
+  refine edges_abstract pids r.pids (rootPath pids pids.length (k : Int)) hnd (fun v hv => (hval v hv).1)
+    ?_ ?_ hrev ?_ ?_ u v huv
+  · intro i h
+    rw [← hchain i h]
+    have := hval _ (List.getElem_mem (by omega : i < (rootPath pids pids.length (k : Int)).length))
+    exact getD_default_irrel _ _ (by omega) _ _
+  · intro i hi h
+    rw [path_last pids hw k hk i hi h]
+    simp [List.getD_eq_getElem?_getD, hw.root]
+  · intro h
+    have : (rootPath pids pids.length (k : Int))[0] = (k : Int) := by
+      have := rp_head pids pids.length (k : Int)
+      rw [List.head?_eq_getElem?, List.getElem?_eq_getElem h] at this
+      exact Option.some.inj this
+    rw [this]; simpa using hk1
+  · intro w hw'
+    by_cases hlt : w < pids.length
+    · exact hoff w hlt hw'
+    · have hlen' : r.pids.length = pids.length := hlen
+      simp only [List.getD_eq_getElem?_getD]
+      rw [List.getElem?_eq_none (by omega), List.getElem?_eq_none (by omega)]
 
 /-- **the requested node is the unique root** -/
 theorem redirect_root (pids types : List Int) (hw : WF pids) (k : Nat) (hk : k < pids.length) (v : Nat) (hv : v < pids.length) :
     (redirect pids types (k : Int)).pids.getD v 0 = -1 ↔ v = k := by
-  sorry
+  obtain ⟨hhead, hlast, hnd, hval, hchain⟩ := rootPath_spec pids hw k hk
+  obtain ⟨hlen, hk1, hrev, hoff⟩ := redirect_pids pids types hw k hk
+  constructor
+  · intro h
+    by_cases hm : (v : Int) ∈ rootPath pids pids.length (k : Int)
+    · obtain ⟨i, hi, e⟩ := List.getElem_of_mem hm
+      cases i with
+      | zero =>
+        have := rp_head pids pids.length (k : Int)
+        rw [List.head?_eq_getElem?, List.getElem?_eq_getElem hi, e] at this
+        have := Option.some.inj this
+        omega
+      | succ i =>
+        have h2 := hrev i hi
+        rw [e] at h2; simp only [Int.toNat_natCast] at h2
+        rw [h2] at h
+        have := (hval _ (List.getElem_mem (by omega : i < (rootPath pids pids.length (k : Int)).length))).1
+        omega
+    · rw [hoff v hv hm] at h
+      have hv0 : v ≠ 0 := by
+        intro h0; subst h0
+        apply hm
+        have := List.mem_of_getLast? hlast
+        simpa using this
+      obtain ⟨p, hp, hp0, _⟩ := hw.par_valid v (by omega) hv
+      simp [List.getD_eq_getElem?_getD, hp] at h
+      omega
+  · intro h; subst h; exact hk1
 
 /-- **every attribute is kept; only the types of the old and the new root are exchanged** -/
 theorem redirect_types (pids types : List Int) (hw : WF pids) (hl : types.length = pids.length) (k : Nat) (hk : k < pids.length)
     (v : Nat) (hv : v < pids.length) :
     (redirect pids types (k : Int)).types.getD v 0 =
       if v = k then types.getD 0 0 else if v = 0 then types.getD k 0 else types.getD v 0 := by
-  sorry
+  have hlast := hw.2.2 k hk
+  have e : (redirect pids types (k : Int)).types =
+      setAt (setAt types (k : Int) (types.getD 0 0)) 0 (types.getD k 0) := by
+    show setAt (setAt types (k : Int) (types.getD ((rootPath pids pids.length (k : Int)).getLastD (k : Int)).toNat 0))
+      ((rootPath pids pids.length (k : Int)).getLastD (k : Int)) (types.getD (k : Int).toNat 0) = _
+    rw [List.getLastD_eq_getLast?, hlast]
+    simp
+  rw [e]
+  unfold setAt
+  simp only [List.getD_eq_getElem?_getD]
+  have h1 : ¬ ((k : Int) < 0) := by omega
+  rw [if_neg h1, if_neg (by omega)]
+  simp only [Int.toNat_natCast, Int.toNat_zero, List.getElem?_set]
+  by_cases hvk : v = k
+  · subst hvk
+    by_cases hv0 : v = 0
+    · subst hv0; simp [hl, hv]
+    · have : ¬ 0 = v := fun h => hv0 h.symm
+      simp [this, hl, hv]
+  · have : ¬ k = v := fun h => hvk h.symm
+    by_cases hv0 : v = 0
+    · subst hv0; simp [hvk, hl, hv]
+    · have : ¬ 0 = v := fun h => hv0 h.symm
+      simp [*]
 
 /-- re-rooting at the root changes nothing -/
 theorem redirect_at_root (pids types : List Int) (hw : WF pids) (hl : types.length = pids.length) :
     redirect pids types 0 = ⟨pids, types⟩ := by
-  sorry
+  have hpos := hw.pos
+  have hroot := hw.root
+  have hp : rootPath pids pids.length 0 = [0] := by
+    obtain ⟨m, hm⟩ : ∃ m, pids.length = m + 1 := ⟨pids.length - 1, by omega⟩
+    rw [hm, rp_succ, if_pos hw.par_root]
+  have e : redirect pids types 0 = ⟨reversePath (setAt pids 0 (-1)) (rootPath pids pids.length 0),
+      setAt (setAt types 0 (types.getD ((rootPath pids pids.length 0).getLastD 0).toNat 0))
+        ((rootPath pids pids.length 0).getLastD 0) (types.getD (0 : Int).toNat 0)⟩ := rfl
+  rw [e, hp, reversePath_single]
+  cases pids with
+  | nil => simp at hpos
+  | cons a tl =>
+    cases types with
+    | nil => simp at hl
+    | cons t ts =>
+      simp at hroot
+      subst hroot
+      simp [setAt]
 
 /-! ## concatenation (before the final sort) -/
 section cat
@@ -79,7 +369,81 @@ def Coincident : Prop :=
 /-- with translation requested the chosen nodes coincide -/
 theorem translate_coincides (h : translate = true) :
     Coincident x1 y1 z1 x2 y2 z2 node1 node2 translate := by
-  sorry
+  have e : ∀ a b : Int, a - (a - b) - b = 0 := by intros; omega
+  unfold Coincident shift
+  simp [h, e]
+
+theorem getD_map_sub (a : List Int) (d : Int) (i : Nat) (h : i < a.length) :
+    (a.map (fun x => x - d)).getD i 0 = a.getD i 0 - d := by
+  simp [List.getD_eq_getElem?_getD, h]
+
+theorem catPre_sep (hx : node2 < x2.length) (hy : node2 < y2.length) (hz : node2 < z2.length)
+    (hc : ¬ Coincident x1 y1 z1 x2 y2 z2 node1 node2 translate) :
+    catPre p1 t1 x1 y1 z1 p2 t2 x2 y2 z2 (node1 : Int) (node2 : Int) translate =
+      ⟨(List.range p1.length).map Int.ofNat ++ (List.range p2.length).map (fun k => Int.ofNat k + (p1.length : Int)),
+       setAt (p1 ++ (second p2 t2 node2).pids.map (· + (p1.length : Int))) ((node2 : Int) + p1.length) (node1 : Int),
+       x1 ++ x2.map (· - shift node1 node2 translate x1 x2),
+       y1 ++ y2.map (· - shift node1 node2 translate y1 y2),
+       z1 ++ z2.map (· - shift node1 node2 translate z1 z2),
+       t1 ++ (second p2 t2 node2).types⟩ := by
+  unfold Coincident shift at hc
+  unfold catPre
+  simp only [Int.toNat_natCast, getD_map_sub _ _ _ hx, getD_map_sub _ _ _ hy, getD_map_sub _ _ _ hz]
+  dsimp only at hc
+  rw [if_neg hc, if_neg hc]
+  unfold second shift
+  simp only [List.foldl_cons, List.foldl_nil]
+
+theorem catPre_merged (hx : node2 < x2.length) (hy : node2 < y2.length) (hz : node2 < z2.length)
+    (hc : Coincident x1 y1 z1 x2 y2 z2 node1 node2 translate) :
+    catPre p1 t1 x1 y1 z1 p2 t2 x2 y2 z2 (node1 : Int) (node2 : Int) translate =
+      ⟨eraseAt ((List.range p1.length).map Int.ofNat ++ (List.range p2.length).map (fun k => Int.ofNat k + (p1.length : Int)))
+          (node2 + p1.length),
+       eraseAt (((tableKids ((List.range p2.length).map Int.ofNat) (second p2 t2 node2).pids (node2 : Int)).map
+            (· + (p1.length : Int))).foldl (fun ps n => setAt ps n (node1 : Int))
+            (p1 ++ (second p2 t2 node2).pids.map (· + (p1.length : Int)))) (node2 + p1.length),
+       eraseAt (x1 ++ x2.map (· - shift node1 node2 translate x1 x2)) (node2 + p1.length),
+       eraseAt (y1 ++ y2.map (· - shift node1 node2 translate y1 y2)) (node2 + p1.length),
+       eraseAt (z1 ++ z2.map (· - shift node1 node2 translate z1 z2)) (node2 + p1.length),
+       eraseAt (t1 ++ (second p2 t2 node2).types) (node2 + p1.length)⟩ := by
+  unfold Coincident shift at hc
+  unfold catPre
+  have hk : ((node2 : Int) + (p1.length : Int)).toNat = node2 + p1.length := by omega
+  simp only [Int.toNat_natCast, getD_map_sub _ _ _ hx, getD_map_sub _ _ _ hy, getD_map_sub _ _ _ hz, hk]
+  dsimp only at hc
+  rw [if_pos hc, if_pos hc]
+  unfold second shift
+  rfl
+
+theorem second_length : (second p2 t2 node2).pids.length = p2.length := by
+  unfold second
+  split
+  · rfl
+  · rw [redirect_pids_eq, reversePath_length, setAt_length]
+
+/-! list access helpers -/
+theorem getD_app_left (a b : List Int) (i : Nat) (h : i < a.length) : (a ++ b).getD i 0 = a.getD i 0 := by
+  simp [List.getD_eq_getElem?_getD, List.getElem?_append_left h]
+
+theorem getD_app_right (a b : List Int) (n j : Nat) (h : a.length = n) : (a ++ b).getD (n + j) 0 = b.getD j 0 := by
+  subst h
+  simp [List.getD_eq_getElem?_getD, List.getElem?_append_right]
+
+theorem getD_map_add (a : List Int) (d : Int) (i : Nat) (h : i < a.length) :
+    (a.map (fun x => x + d)).getD i 0 = a.getD i 0 + d := by
+  simp [List.getD_eq_getElem?_getD, h]
+
+theorem getD_range_map (n i : Nat) (h : i < n) : ((List.range n).map Int.ofNat).getD i 0 = (i : Int) := by
+  rw [List.getD_eq_getElem?_getD, List.getElem?_map, List.getElem?_range h]; rfl
+
+theorem ids_eq (n1 n2 : Nat) :
+    (List.range n1).map Int.ofNat ++ (List.range n2).map (fun k => Int.ofNat k + (n1 : Int)) =
+      (List.range (n1 + n2)).map Int.ofNat := by
+  rw [List.range_add, List.map_append, List.map_map]
+  congr 1
+  apply List.map_congr_left
+  intro k _
+  simp; omega
 
 /-- **non-coincident junction**: the table is tree 1 unchanged, followed by tree 2 with ids and parents
 shifted by `|tree1|`, positions translated by one common vector (zero without translation), and the
@@ -101,7 +465,87 @@ theorem cat_separate (h1 : t1.length = p1.length ∧ x1.length = p1.length ∧ y
         c.y.getD (p1.length + j) 0 = y2.getD j 0 - shift node1 node2 translate y1 y2 ∧
         c.z.getD (p1.length + j) 0 = z2.getD j 0 - shift node1 node2 translate z1 z2 ∧
         c.types.getD (p1.length + j) 0 = s.types.getD j 0) := by
-  sorry
+  obtain ⟨ht1, hx1, hy1, hz1⟩ := h1
+  obtain ⟨ht2, hx2, hy2, hz2⟩ := h2
+  rw [catPre_sep p1 t1 x1 y1 z1 p2 t2 x2 y2 z2 node1 node2 translate (by omega) (by omega) (by omega) hc]
+  dsimp only
+  have hsl := second_length p2 t2 node2
+  have hcast : (node2 : Int) + (p1.length : Int) = ((p1.length + node2 : Nat) : Int) := by omega
+  refine ⟨ids_eq _ _, ?_, ?_, ?_, ?_, ?_⟩
+  · rw [setAt_length, List.length_append, List.length_map, hsl]
+  · intro i hi
+    refine ⟨?_, getD_app_left _ _ _ (by omega), getD_app_left _ _ _ (by omega), getD_app_left _ _ _ (by omega),
+      getD_app_left _ _ _ (by omega)⟩
+    rw [List.getD_eq_getElem?_getD, setAt_getElem?_ne _ _ _ _ (by omega), ← List.getD_eq_getElem?_getD,
+      getD_app_left _ _ _ hi]
+  · intro j hj hne
+    rw [List.getD_eq_getElem?_getD, setAt_getElem?_ne _ _ _ _ (by omega), ← List.getD_eq_getElem?_getD,
+      getD_app_right _ _ _ _ rfl, getD_map_add _ _ _ (by omega)]
+  · rw [List.getD_eq_getElem?_getD, hcast, setAt_getElem?_self]
+    · rfl
+    · rw [List.length_append, List.length_map, hsl]; omega
+  · intro j hj
+    refine ⟨?_, ?_, ?_, getD_app_right _ _ _ _ ht1⟩
+    · rw [getD_app_right _ _ _ _ hx1, getD_map_sub _ _ _ (by omega)]
+    · rw [getD_app_right _ _ _ _ hy1, getD_map_sub _ _ _ (by omega)]
+    · rw [getD_app_right _ _ _ _ hz1, getD_map_sub _ _ _ (by omega)]
+
+/-- the parent column of the merged table before the junction row is deleted -/
+theorem merged_pids (sp : List Int) (n1 n2 : Nat) (hsp : sp.length = n2) (hp1 : p1.length = n1) (_hn1 : node1 < n1) :
+    let L := ((tableKids ((List.range n2).map Int.ofNat) sp (node2 : Int)).map (· + (n1 : Int))).foldl
+      (fun ps n => setAt ps n (node1 : Int)) (p1 ++ sp.map (· + (n1 : Int)))
+    L.length = n1 + n2 ∧
+    (∀ i, i < n1 → L[i]? = p1[i]?) ∧
+    (∀ j, j < n2 → L[n1 + j]? =
+      some (if sp.getD j 0 = (node2 : Int) then (node1 : Int) else sp.getD j 0 + (n1 : Int))) := by
+  intro L
+  have hmem : ∀ m : Nat, ((m : Int) ∈ (tableKids ((List.range n2).map Int.ofNat) sp (node2 : Int)).map (· + (n1 : Int))) ↔
+      ∃ j, m = n1 + j ∧ j < n2 ∧ sp[j]? = some (node2 : Int) := by
+    intro m
+    rw [List.mem_map]
+    constructor
+    · rintro ⟨a, ha, e⟩
+      have ha0 : 0 ≤ a := tableKids_nonneg _ _ _ (by
+        intro i hi; rw [List.mem_map] at hi; obtain ⟨k, _, rfl⟩ := hi; exact Int.natCast_nonneg k) a ha
+      obtain ⟨j, rfl⟩ : ∃ j : Nat, a = (j : Int) := ⟨a.toNat, by omega⟩
+      rw [mem_tableKids_range] at ha
+      exact ⟨j, by omega, ha.1, ha.2⟩
+    · rintro ⟨j, rfl, hj, hq⟩
+      exact ⟨(j : Int), (mem_tableKids_range _ _ _ _).mpr ⟨hj, hq⟩, by omega⟩
+  refine ⟨?_, ?_, ?_⟩
+  · show List.length (List.foldl _ _ _) = _
+    rw [foldl_setAt_length, List.length_append, List.length_map, hsp, hp1]
+  · intro i hi
+    show (List.foldl _ _ _ : List Int)[i]? = _
+    rw [foldl_setAt_not_mem, List.getElem?_append_left (by omega)]
+    rw [hmem]; rintro ⟨j, e, _⟩; omega
+  · intro j hj
+    show (List.foldl _ _ _ : List Int)[n1 + j]? = _
+    have hgd : sp.getD j 0 = sp[j]'(by omega) := by
+      simp [List.getD_eq_getElem?_getD, hsp, hj]
+    by_cases hq : sp[j]? = some (node2 : Int)
+    · rw [foldl_setAt_mem]
+      · have : sp.getD j 0 = (node2 : Int) := by simp [List.getD_eq_getElem?_getD, hq]
+        rw [if_pos this]
+      · rw [hmem]; exact ⟨j, rfl, hj, hq⟩
+      · rw [List.length_append, List.length_map, hsp, hp1]; omega
+    · rw [foldl_setAt_not_mem]
+      · have : ¬ sp.getD j 0 = (node2 : Int) := by
+          intro h; apply hq; rw [List.getElem?_eq_getElem (by omega), ← hgd, h]
+        rw [if_neg this, List.getElem?_append_right (by omega), hp1]
+        simp [hsp, hj]
+      · rw [hmem]; rintro ⟨j', e, _, hq'⟩
+        have : j' = j := by omega
+        subst this; exact hq hq'
+
+theorem eraseAt_getD_row (l : List Int) (n1 j : Nat) (hne : j ≠ node2) (hk : node2 + n1 ≤ l.length) :
+    (eraseAt l (node2 + n1)).getD (if j < node2 then n1 + j else n1 + j - 1) 0 = l.getD (n1 + j) 0 := by
+  simp only [List.getD_eq_getElem?_getD]
+  split
+  · rw [eraseAt_getElem?_lt _ _ _ (by omega)]
+  · rw [eraseAt_getElem?_ge _ _ _ (by omega) hk]
+    have : n1 + j - 1 + 1 = n1 + j := by omega
+    rw [this]
 
 /-- **coincident junction nodes are merged into one**: tree 2's junction row is deleted, its children hang
 from `node1`, every other row is as in the non-coincident case (rows after the deleted one move up by one) -/
@@ -118,7 +562,27 @@ theorem cat_merged (h1 : t1.length = p1.length ∧ x1.length = p1.length ∧ y1.
         c.ids.getD (row j) 0 = ((p1.length + j : Nat) : Int) ∧
         c.pids.getD (row j) 0 = (if s.pids.getD j 0 = (node2 : Int) then (node1 : Int) else s.pids.getD j 0 + p1.length) ∧
         c.x.getD (row j) 0 = x2.getD j 0 - shift node1 node2 translate x1 x2) := by
-  sorry
+  obtain ⟨ht1, hx1, hy1, hz1⟩ := h1
+  obtain ⟨ht2, hx2, hy2, hz2⟩ := h2
+  rw [catPre_merged p1 t1 x1 y1 z1 p2 t2 x2 y2 z2 node1 node2 translate (by omega) (by omega) (by omega) hc]
+  dsimp only
+  have hsl := second_length p2 t2 node2
+  obtain ⟨hL, hLlo, hLhi⟩ := merged_pids p1 node1 node2 (second p2 t2 node2).pids p1.length p2.length hsl rfl hn1
+  rw [ids_eq]
+  refine ⟨?_, ?_, ?_⟩
+  · rw [eraseAt_length _ _ (by rw [hL]; omega), hL]
+  · intro i hi
+    simp only [List.getD_eq_getElem?_getD]
+    rw [eraseAt_getElem?_lt _ _ _ (by omega), eraseAt_getElem?_lt _ _ _ (by omega),
+      eraseAt_getElem?_lt _ _ _ (by omega), hLlo i hi, List.getElem?_append_left (by omega)]
+    refine ⟨?_, rfl, rfl⟩
+    rw [← List.getD_eq_getElem?_getD, getD_range_map _ _ (by omega)]
+  · intro j hj hne
+    refine ⟨?_, ?_, ?_⟩
+    · rw [eraseAt_getD_row _ _ _ _ hne (by simp; omega), getD_range_map _ _ (by omega)]
+    · rw [eraseAt_getD_row _ _ _ _ hne (by rw [hL]; omega), List.getD_eq_getElem?_getD, hLhi j hj]
+      rfl
+    · rw [eraseAt_getD_row _ _ _ _ hne (by simp; omega), getD_app_right _ _ _ _ hx1, getD_map_sub _ _ _ (by omega)]
 end cat
 
 -- non-vacuity / concrete behaviour
